@@ -14,7 +14,40 @@ let raises = L [A "raises"; Q "ValueError"]
 let to_adj = to_list to_zl
 let to_edges = to_list (to_pair to_z to_z)
 
+(* The range 1..n built from native integers.  Model.upto goes through Z.of_nat on a unary number and is
+   quadratic in n (58 s for n = 66000).  gphp_ir_fast / subsetcard_ir_fast are the bodies of Model.gphp_ir /
+   Model.subsetcard_ir (coq/Fam_php.v, Fam_subsetcard.v, FamTab.v sm_complete ... sm_functional) with that one function replaced; every
+   other piece (tables, row_ids, col_ids, renderings) is the extracted code.  harness/c01.py compares the
+   *_fast commands with fam_gphp / fam_subsetcard on every stream instance with R <= 3000, in every run, and
+   uses them alone only for right sides of 65535 vertices and more. *)
+let upto_fast (n : z) : z list = List.init (max 0 (int_of_z n)) (fun i -> z_of_int (i + 1))
+let one = z_of_int 1
+let two = z_of_int 2
+let gphp_ir_fast adj r functional onto : ir list =
+  let t = gphp_tab adj in
+  let l = len adj in
+  List.map (fun u -> IClause (row_ids t u)) (upto_fast l)
+  @ (if onto then List.map (fun v -> IClause (col_ids t v)) (upto_fast r) else [])
+  @ List.map (fun v -> ILin (col_ids t v, CLe, one)) (upto_fast r)
+  @ (if functional then List.map (fun u -> ILin (row_ids t u, CLe, one)) (upto_fast l) else [])
+let subsetcard_ir_fast adj r equalities : ir list =
+  let t = subsetcard_tab adj in
+  List.map (fun u -> let ls = row_ids t u in
+             if equalities then ILin (ls, CEq, Z.div (Z.add (len ls) one) two) else ILooseMaj ls) (upto_fast (len adj))
+  @ List.map (fun v -> let ls = col_ids t v in
+               if equalities then ILin (ls, CEq, Z.div (len ls) two) else ILooseMin ls) (upto_fast r)
+
 let () =
+  register "fam_gphp_fast" (function [adj; r; f; o] ->
+      let adj = to_adj adj and r = to_z r in
+      if bip_wf adj r then formula_reply (gphp_numvar adj) (gphp_ir_fast adj r (to_bool f) (to_bool o))
+      else raise (Bad "not a well-formed bipartite graph")
+    | _ -> raise (Bad "arity"));
+  register "fam_subsetcard_fast" (function [adj; r; eq] ->
+      let adj = to_adj adj and r = to_z r in
+      if bip_wf adj r then formula_reply (subsetcard_numvar adj) (subsetcard_ir_fast adj r (to_bool eq))
+      else raise (Bad "not a well-formed bipartite graph")
+    | _ -> raise (Bad "arity"));
   register "fam_php" (function [m; n; f; o] ->
       let m = to_z m and n = to_z n in
       if php_valid m n then formula_reply (php_numvar m n) (php_ir m n (to_bool f) (to_bool o)) else raises
